@@ -38,6 +38,16 @@ def _windows(st_, dcl, dhl, m, noon_off):
 
 
 def check_axis(case, rec):
+    from vlib.core import jhash
+
+    if int(jhash(case), 16) % 4 == 0:
+        # call history: a leap load year was processed earlier in this process (its own axis is not judged here); the
+        # calendar of the ordinary non-leap case that follows must not be affected
+        try:
+            hc.make_hybrid(dict(case, months=min(case["months"], 14), leap=True))
+        except Violation:
+            pass
+        rec.cls("after_a_leap_year_run_in_the_same_process")
     hl, hourly, eq, radial = hc.make_hybrid(case)
     n = case["months"]
     hour = [float(x) for x in hl.hour]
